@@ -132,9 +132,32 @@ func specF10(scale int64, extraBE int64, small int64) sched.CycleSpec {
 	return spec
 }
 
+// specPipelinedOnly: a gang of `min` pods of which one fits only FutureIdle: JobPipelined but not
+// JobReady, the statement must be kept and NOTHING bound (a scheduler that counts Pipelined tasks
+// as ready, or commits on JobPipelined, binds min-1 pods here).
+func specPipelinedOnly(scale int64, min int64) sched.CycleSpec {
+	spec := sched.CycleSpec{PGPhase: map[int64]int64{1: 3, 2: 2}}
+	spec.Nodes = []sched.NodeSpec{{ID: 1, Has: true, CPU: (min + 1) * 1000 * scale, Mem: 64 << 20, Pods: 16}}
+	spec.Queues = []sched.QueueSpec{{ID: 1, Open: true, Weight: 1}}
+	spec.Jobs = []sched.JobSpec{{ID: 1, Queue: 1, Min: 1}, {ID: 2, Queue: 1, Min: min}}
+	spec.Tasks = []sched.TaskSpec{{ID: 1, Job: 1, Role: 1, CPU: 2000 * scale, Status: sched.SReleasing, Node: 1}}
+	for k := int64(0); k < min-1; k++ {
+		spec.Tasks = append(spec.Tasks, sched.TaskSpec{ID: 2 + k, Job: 2, Role: 1, Prio: 9, CPU: 1000 * scale, Status: sched.SPending})
+	}
+	spec.Tasks = append(spec.Tasks, sched.TaskSpec{ID: 1 + min, Job: 2, Role: 1, Prio: 1, CPU: 2000 * scale, Status: sched.SPending})
+	return spec
+}
+
 func genF10(rng *vh.Rng, n int, emit func(id string, sel int, in []int64, kind string, nontrivial bool, desc any)) {
 	for i := 0; i < n; i++ {
 		r := rng.Fork()
+		if i%3 == 2 {
+			spec := specPipelinedOnly(int64(r.Range(1, 2)), int64(r.Range(2, 4)))
+			spec.Actions = vh.Pick(r, [][]int64{{1}, {1, 2}, {2, 1}})
+			emit(fmt.Sprintf("f10-%d", i), 1, spec.Enc(sched.EpsUnits), fmt.Sprintf("f10/pipelined-only/actions=%v", spec.Actions), true,
+				map[string]any{"directed": "pipelined-only gang must stay unbound", "actions": spec.Actions})
+			continue
+		}
 		spec := specF10(int64(r.Range(1, 3)), int64(r.Range(0, 2)), int64(r.Range(1, 4))*250)
 		acts := vh.Pick(r, [][]int64{{1, 1}, {1, 1}, {1, 2, 1}, {1}, {1, 2}})
 		if i < 2 {
